@@ -851,6 +851,9 @@ func filterOnlyByType(c *an.Ctx, rule string, which string) {
 			extra = append(extra, c.PosStr(condPos(g.V)))
 		}
 	})
+	if _, early := loopEarlyExits(c, fn, nil); len(early) > 0 {
+		extra = append(extra, early...)
+	}
 	sort.Strings(extra)
 	c.Ob("core/workflow/callable.Hooks."+which+"|kind-only", fn.Pos(), n > 0 && len(extra) == 0,
 		"a hook of the asked kind is kept only under further conditions (%v): the hooks left out are not run at their moment (a DESTROY hook task is then neither triggered nor killed with the rest; a call is neither started nor awaited)", extra)
